@@ -19,6 +19,8 @@ str_lower = z3.Function("str_lower", smt.S, smt.S)
 str_strip = z3.Function("str_strip", smt.S, smt.S)
 str_lstrip1 = z3.Function("str_lstrip1", smt.S, smt.S, smt.S)  # s.lstrip(ch)
 str_replace_all = z3.Function("str_replace_all", smt.S, smt.S, smt.S, smt.S)
+bytes_strip = z3.Function("bytes_strip", smt.Sq, smt.Sq)
+str_isdigit = z3.Function("str_isdigit", smt.S, smt.Bool)
 latin1_enc = z3.Function("latin1_enc", smt.S, smt.Sq)
 latin1_ok = z3.Function("latin1_ok", smt.S, smt.Bool)
 utf8_encodable = z3.Function("utf8_encodable", smt.S, smt.Bool)
@@ -115,6 +117,14 @@ class Models:
                     a, b, ok, m = b, a, True, ma
             if ok and m >= 0 and (m + 1) & m == 0:  # 2^k - 1
                 return mk("int", z(a, "int") % (m + 1))
+            if ok and m > 0:
+                j = (m & -m).bit_length() - 1
+                n_ = m.bit_length()
+                if m == 2 ** n_ - 2 ** j:
+                    # contiguous high mask of an n-bit value: clears the low j bits
+                    ta_ = z(a, "int")
+                    if c.branch(z3.And(ta_ >= 0, ta_ < 2 ** n_)):
+                        return mk("int", ta_ - ta_ % (2 ** j))
             if ok and m >= 0:
                 # general non-negative concrete mask, for 0 <= a: sum of selected bits
                 ta_ = z(a, "int")
@@ -272,6 +282,8 @@ class Models:
                     return self.symseq_contains(c, cell.data, x)
                 if isinstance(cell.data, list):
                     return self.contains(c, tuple(cell.data), x, node)
+            if cell.kind == "dict" and "$map" in cell.data:
+                return self.e.symmap_get(c, cell, x)[0]
             if cell.kind == "dict":
                 ok, k = concrete(x)
                 if not ok:
@@ -293,8 +305,10 @@ class Models:
         raise Undecided(f"membership in {tag_of(container)} at line {getattr(node, 'lineno', '?')}")
 
     def symseq_contains(self, c, seq, x):
-        j = smt.fresh(smt.Int, "j")
-        raise Undecided("membership in abstract sequence")
+        if seq.fn is None:
+            raise Undecided("membership in abstract sequence")
+        j = z3.Int("j!in")
+        return z3.Exists([j], z3.And(0 <= j, j < z(seq.length, "int"), seq.fn(j) == z(x)))
 
     # ------------------------------------------------------------------ attributes
     def getattr_(self, c, obj, attr, node):
@@ -340,10 +354,13 @@ class Models:
             raise py_exc(AttributeError, f"exception has no attribute {attr}")
         if isinstance(obj, Ext):
             return self.e.ext_getattr(c, obj, attr, node)
-        if isinstance(obj, (SV, str, bytes, bytearray, tuple, BigInt)):
+        if isinstance(obj, (SV, str, bytes, bytearray, tuple, BigInt, dict)):
             return ValMethod(obj, attr)
         if isinstance(obj, Closure):
             raise Undecided(f"attribute {attr} of function")
+        import os as _os
+        if obj is _os.environ and attr == "get":
+            return getattr(obj, attr)  # handled by the assumed contract real:_Environ.get
         raise Undecided(f"attribute {attr} of {tag_of(obj)} at line {getattr(node, 'lineno', '?')}")
 
     def ext_setattr(self, c, obj, attr, v, node):
@@ -354,6 +371,11 @@ class Models:
         obj, idx = c.force(obj), c.force(idx)
         if isinstance(obj, Ref):
             cell = c.cell(obj)
+            if cell.kind == "dict" and "$map" in cell.data:
+                present, val = self.e.symmap_get(c, cell, idx)
+                if not c.branch(present):
+                    raise py_exc(KeyError, "key")
+                return val
             if cell.kind == "dict":
                 ok, k = concrete(idx)
                 if not ok:
@@ -439,7 +461,7 @@ class Models:
             cell = c.cell(obj)
             ok, k = concrete(idx)
             if cell.kind == "dict":
-                if not ok:
+                if not ok or "$map" in cell.data:
                     return self.e.symdict_store(c, obj, idx, v, node)
                 cell.data[k] = (True, v)
                 return
